@@ -5,7 +5,7 @@ import posixpath
 ID = "C23"
 LEVEL = "exploration"
 TECHNIQUE = "invariant on engine.csets['new_cset'] before/after the real pre_merge hook"
-RULE = ("content sets of 1-40 entries (files, dirs, symlinks, fifos, char/block devices) covering every one of the 4096 "
+RULE = ("content sets of 1-40 entries (files, dirs, symlinks, fifos, char/block devices incl. numbers 0:0, 0:n, n:0) covering every one of the 4096 "
         "permission values x 5 entry types (enumerated round-robin over the shards) with owners from {0, build uid, "
         "other} and groups from {0, build gid, other}, symlink targets in and out of normalised form (../lib//x, a/../b, "
         "./x, dir/), plus random sets; passed through MergeEngine.install(...)."
@@ -24,7 +24,8 @@ SHARDS = {"quick": 4, "thorough": 16}
 TIMEOUT = {"quick": 240, "thorough": 1800}
 MIN_EVALS = 100000
 REQUIRED_COUNTERS = ("entries_setid_and_world_writable", "entries_owned_by_build_user", "entries_owned_by_build_group",
-                     "pre_merge_runs", "reowned_symlinks_with_unnormalised_target", "type:file", "type:dir", "type:symlink", "type:fifo", "type:dev")
+                     "pre_merge_runs", "reowned_symlinks_with_unnormalised_target",
+                     "zero_numbered_devices_needing_a_fix", "type:file", "type:dir", "type:symlink", "type:fifo", "type:dev")
 
 TYPES = ("file", "dir", "symlink", "fifo", "dev")
 
@@ -101,7 +102,13 @@ def judge(ctx, case):
         made[name]().register(eng)
     off = case["offset"].rstrip("/")
     orig_target = {posixpath.normpath(off + s_["loc"]): s_["target"] for s_ in case["entries"] if s_["t"] == "symlink"}
-    before = {x.location: x for x in eng.csets["new_cset"]}
+    try:
+        before = {x.location: x for x in eng.csets["new_cset"]}
+    except Exception as e:  # the engine refused the package's contents loudly: nothing reaches pre-merge
+        ctx.count("cset_generation_raised:" + type(e).__name__)
+        ctx.note("generating new_cset raised %r" % (e,))
+        ctx.skip_unspecified("generating new_cset raised")
+        return
     snap = {loc: {"type": _type_of(x), "mode": x.mode, "uid": x.uid, "gid": x.gid, "mtime": x.mtime,
                   "target": getattr(x, "target", None) if x.is_sym else None,
                   "data_id": id(x.data) if x.is_reg else None,
@@ -179,6 +186,8 @@ def judge(ctx, case):
                 flag("target-changed", loc, original_target=want, target_after=a.target)
         if t == "file" and id(a.data) != b["data_id"]:
             flag("data-changed", loc)
+        if t == "dev" and 0 in b["dev"] and (setid_ww or b["uid"] == U or b["gid"] == G):
+            ctx.count("zero_numbered_devices_needing_a_fix")
         if t == "dev" and (a.major, a.minor) != b["dev"]:
             flag("device-numbers-changed", loc)
         # counted only: the statement does not constrain these
@@ -229,7 +238,9 @@ def _entry(rng, t, mode, idx, U, G):
         spec["data"] = "payload %d" % idx
     if t == "dev":
         spec["chr"] = rng.random() < 0.5
-        spec["major"], spec["minor"] = rng.randrange(1, 200), rng.randrange(0, 200)
+        # boundary device numbers included: 0:0 (overlayfs-style whiteout), 0:n, n:0, 255
+        spec["major"] = rng.choice([0, 0, 1, 255, rng.randrange(1, 200)])
+        spec["minor"] = rng.choice([0, 0, 1, 255, rng.randrange(0, 200)])
     return spec
 
 
